@@ -111,6 +111,17 @@ def ops(tier, cfg):
         L.append((f"view2d_block_read[{t}|3x{W + 3}]", t, (3, W + 3), t, (1,), t, (2, W + 1), f"r = a(seq(1,3),seq(2,{W + 3}));", False, True))
         L.append((f"view_fill[{t}|{n}]", t, (1,), t, (1,), t, (n,), f"r(seq({n - W - 1},{n})) = a(0);", False, True))
         L.append((f"copy_ctor[{t}|{n}]", t, (n,), t, (1,), t, (n,), "r = a;", False, True))
+        # index-tensor and boolean-mask views (gather / scatter / filtered store), reshape/flatten aliases
+        L.append((f"randview_read[{t}|{n}]", t, (n,), t, (1,), t, (4,), f"Tensor<int,4> it = {{{n - 1},0,{n // 2},{n - 1}}}; r = a(it);", False, False))
+        L.append((f"randview_write[{t}|{n}]", t, (4,), t, (1,), t, (n,), f"Tensor<int,4> it = {{{n - 1},0,{n // 2},1}}; r(it) = a;", False, False))
+        L.append((f"maskview_write[{t}|{n}]", t, (n,), t, (n,), t, (n,), f"Tensor<bool,{n}> m = a > b; r = b; r(m) = a;", False, False))
+        L.append((f"flatten_sum[{t}|3x{W + 1}]", t, (3, W + 1), t, (1,), t, (1,), "r(0) = sum(flatten(a));", False, False))
+        L.append((f"reshape_copy[{t}|2x{W + 1}]", t, (2, W + 1), t, (1,), t, (W + 1, 2), f"r = reshape<{W + 1},2>(a);", False, False))
+        if fp:
+            for nn in (3, 5):
+                L.append((f"lu[{t}|{nn}]", t, (nn, nn), t, (1,), t, (nn, nn), f"Tensor<{CTYPE[t]},{nn},{nn}> l, u; lu(a, l, u); r = l + u;", True, False))
+                L.append((f"qr[{t}|{nn}]", t, (nn, nn), t, (1,), t, (nn, nn), f"Tensor<{CTYPE[t]},{nn},{nn}> q, rr; qr(a, q, rr); r = q + rr;", True, False))
+            L.append((f"norm2d[{t}|3x{W + 1}]", t, (3, W + 1), t, (1,), t, (1,), "r(0) = norm(a);", False, True))
     return L
 
 
